@@ -448,6 +448,28 @@ fn palette_set(thorough: bool) -> Vec<(String, Pal)> {
         ],
     ));
     v.push(("reversed-VGA".into(), reversed(&vga)));
+    // palettes that look like a stock palette to a sloppy comparison: every slot shares one or two channels with VGA;
+    // White equal to BrightWhite while the other bright colours stay distinct; two slots of WIN10 swapped
+    let mut near_vga = vga;
+    for (i, e) in near_vga.iter_mut().enumerate() {
+        match i % 3 {
+            0 => e.0 = e.0.wrapping_add(85),
+            1 => e.1 = e.1.wrapping_add(85),
+            _ => e.2 = e.2.wrapping_add(85),
+        }
+    }
+    v.push(("VGA with one channel of every slot changed".into(), near_vga));
+    let mut three = vga;
+    three[3] = (170, 170, 0);
+    three[4] = (0, 85, 255);
+    three[12] = (85, 170, 255);
+    v.push(("VGA with Yellow, Blue, BrightBlue changed in one or two channels".into(), three));
+    let mut ww = win;
+    ww[7] = ww[15];
+    v.push(("WIN10 with White := BrightWhite".into(), ww));
+    let mut sw = win;
+    sw.swap(1, 9);
+    v.push(("WIN10 with Red and BrightRed swapped".into(), sw));
     // all sixteen entries huddled in one corner of the cube, all distinct (a "paper" / "midnight" theme): for inputs in
     // the opposite corner every candidate is almost as far away as the metric can measure
     let mut paper = [(0u8, 0u8, 0u8); 16];
